@@ -132,11 +132,11 @@ Qed.
 
 Theorem unknown_field_err : forall f te top ty cur id tn fs st d k v r,
     cache_find id st = None -> find_reg te tn = Some d ->
-    In (k, v) fs -> resolve f te (s_name d) k = None ->
+    In (k, v) fs -> resolve_key f te (s_name d) k = None ->
     conv (S f) te top ty cur (SRec id tn fs) st <> Ok r.
 Proof.
   intros f te top ty cur id tn fs st d k v r Hc Hr Hin Hres.
-  pose proof (fill_unresolved (resolve f te (s_name d)) te) as HF.
+  pose proof (fill_unresolved (resolve_key f te (s_name d)) te) as HF.
   destruct ty; simpl; try discriminate; rewrite Hc; simpl; try discriminate; rewrite Hr; simpl.
   - (* TPtr *)
     destruct (str_eqb s (s_name d)); [|discriminate].
@@ -343,11 +343,11 @@ Qed.
 Theorem to_go_fills_all_ptr : forall f te cur id tn fs st d loc st',
     cache_find id st = None -> find_reg te tn = Some d ->
     conv (S f) te false (TPtr (s_name d)) cur (SRec id tn fs) st = Ok (GPtr (Some loc), st') ->
-    paths_independent (res_paths (resolve f te (s_name d)) fs) = true ->
+    paths_independent (res_paths (resolve_key f te (s_name d)) fs) = true ->
     exists obj, nth_error (heap st') loc = Some obj /\
       forall k v, In (k, v) fs ->
         exists path sty curv st1 nv st2,
-          resolve f te (s_name d) k = Some path /\ type_at te (TStruct (s_name d)) path = Some sty /\
+          resolve_key f te (s_name d) k = Some path /\ type_at te (TStruct (s_name d)) path = Some sty /\
           conv f te false sty curv v st1 = Ok (nv, st2) /\ get_path obj path = Some nv.
 Proof.
   intros f te cur id tn fs st d loc st' Hc Hr H Hind.
@@ -397,7 +397,7 @@ Theorem error_propagates_record : forall f te top ty cur id tn fs st k v r,
 Proof.
   intros f te top ty cur id tn fs st k v r Hc Hin Hv.
   destruct (find_reg te tn) as [d|] eqn:Hr; [|apply unregistered_record_type; assumption].
-  pose proof (fun bty => fill_value_fails (resolve f te (s_name d)) te bty (conv f te false) fs k v Hin Hv) as HF.
+  pose proof (fun bty => fill_value_fails (resolve_key f te (s_name d)) te bty (conv f te false) fs k v Hin Hv) as HF.
   destruct ty; simpl; try discriminate; rewrite Hc; simpl; try discriminate; rewrite Hr; simpl.
   - destruct (str_eqb s (s_name d)); [|discriminate].
     destruct (zero_of f te (TStruct (s_name d))); [|discriminate].
@@ -427,4 +427,14 @@ Proof.
     destruct (conv_list _ l st) as [[vs st1]| | | |] eqn:E; simpl; try discriminate.
     exfalso. eapply (conv_list_fails _ _ (fun e0 st0 => conv f te false ty z e0 st0) l e Hin); [|eassumption].
     intros st0 r0. apply He.
+Qed.
+
+(* an entry whose key is not a symbol or a string (int, char, array, list key put there with hset) names no field *)
+Theorem nonname_key_err : forall f te top ty cur id tn fs st d k v r,
+    cache_find id st = None -> find_reg te tn = Some d ->
+    In (k, v) fs -> nonname_key k = true ->
+    conv (S f) te top ty cur (SRec id tn fs) st <> Ok r.
+Proof.
+  intros f te top ty cur id tn fs st d k v r Hc Hr Hin Hk.
+  eapply unknown_field_err; try eassumption. unfold resolve_key. rewrite Hk. reflexivity.
 Qed.
